@@ -159,6 +159,18 @@ func runsFor(prop, tier string) []run {
 			_ = d
 			rs = append(rs, run{a.name, eb.Cfg{RF: a.rf, N: a.n, Alphabet: alpha, Oracles: []string{"c09"}, Drain: true, MaxRegs: 5, MaxRestarts: 1, MaxFaults: 2, Revs: a.revs, States: a.states}, d, minutes(pickf(0.3, 2))})
 		}
+		// the same bootstrap through the way replicas really register: controller/client.Register -> controller/rest
+		for _, a := range []struct {
+			name   string
+			revs   []int64
+			states []string
+		}{
+			{"rf3-revs-159-top-rebuilding-through-rest", []int64{1, 5, 9}, []string{"", "", "rebuilding"}},
+			{"rf3-revs-559-mid-rebuilding-through-rest", []int64{5, 5, 9}, []string{"", "rebuilding", ""}},
+			{"rf3-revs-155-through-rest", []int64{1, 5, 5}, nil},
+		} {
+			rs = append(rs, run{a.name, eb.Cfg{RF: 3, N: 3, Alphabet: alpha, Oracles: []string{"c09"}, Drain: true, MaxRegs: 5, MaxRestarts: 1, MaxFaults: 2, Revs: a.revs, States: a.states, ViaREST: true}, pick(5, 7), minutes(pickf(0.3, 2))})
+		}
 		// bootstrap again after the volume lost every replica while the controller kept running
 		loss := eb.Cfg{RF: 3, N: 3, Alphabet: []string{"MonFail", "Restart", "Reg", "RegF", "Start", "StartWrong", "Down", "Up"}, Oracles: []string{"c09"}, Drain: true, MaxRegs: 6, MaxRestarts: 3, MaxFaults: 3, InitOps: rw2}
 		rs = append(rs, run{"rf3-rebootstrap-after-total-loss", loss, pick(6, 8), minutes(pickf(0.5, 3))})
@@ -260,6 +272,22 @@ func runsFor(prop, tier string) []run {
 			{"rf2-from-2rw", mk(2, rw2), pick(5, 7), minutes(pickf(0.6, 4))},
 			{"rf2-from-1rw+wo", mk(2, rw1wo), pick(5, 7), minutes(pickf(0.6, 4))},
 			{"rf3-add-time-snapshot-fails", addf, pick(4, 6), minutes(pickf(0.5, 4))},
+			// the volume is reverted to its newest volume snapshot with the revert call failing on every subset of replicas
+			{"rf3-volume-revert", func() eb.Cfg {
+				c := mk(3, append(append([]string{}, rw3...), "W:0", "Snap:0", "W:0"))
+				c.Alphabet = []string{"Revert", "W0", "Snap", "R", "MonWake", "Remove", "Add", "Sync", "Verify"}
+				c.Oracles = []string{"c13", "c18", "c04", "c02"}
+				c.MaxWrites, c.MaxSnaps, c.MaxReads = 4, 3, 2
+				return c
+			}(), pick(4, 6), minutes(pickf(0.6, 5))},
+			{"rf2-volume-revert-through-rest", func() eb.Cfg {
+				c := mk(2, append(append([]string{}, rw2...), "W:0", "Snap:0", "W:0"))
+				c.Alphabet = []string{"Revert", "W0", "Snap", "R", "MonWake", "Remove", "Add", "Sync", "Verify", "ERR"}
+				c.Oracles = []string{"c13", "c18", "c04", "c02"}
+				c.MaxWrites, c.MaxSnaps, c.MaxReads = 4, 3, 2
+				c.ViaREST = true
+				return c
+			}(), pick(4, 6), minutes(pickf(0.6, 5))},
 		}
 	case "C18":
 		alpha := []string{"Reg", "Start", "StartWrong", "Add", "AddDup", "Sync", "Verify", "VerifyAny", "W", "R", "Snap", "MonFail", "MonWake", "Remove", "RemoveUnknown", "ERR", "RW", "Restart"}
@@ -376,6 +404,9 @@ func check(prop string) int {
 	start := time.Now()
 	var last *kernel.BFS
 	for _, r := range runs {
+		if f := os.Getenv("VERIF_ONLY_RUN"); f != "" && !strings.Contains(r.name, f) { // debugging aid, never set by a registered command
+			continue
+		}
 		b := &kernel.BFS{Property: realProp, EvidenceName: evName, Engine: "E-B/" + r.name, Cfg: r.cfg, MaxDepth: r.depth, Budget: r.budget, Workers: 16, WorkerArgs: []string{"worker"}, WorkerEnv: []string{"GOMAXPROCS=2"}}
 		if !r.cfg.Real && os.Getenv("VERIF_NO_CONFORMANCE") == "" {
 			rc := r.cfg
